@@ -1,0 +1,18 @@
+//go:build verif
+
+package db
+
+import (
+	"github.com/glebziz/fs_db"
+	"github.com/glebziz/fs_db/internal/di"
+)
+
+// VerifContainer returns the DI container behind an inline database handle.
+func VerifContainer(d fs_db.DB) *di.Container {
+	h, ok := d.(*db)
+	if !ok {
+		return nil
+	}
+
+	return h.container
+}
